@@ -103,6 +103,25 @@ Definition witness_cycle : graph :=
     esm_mod [] [] [(1, 0%nat)] [] false;                             (* m3: export var x *)
     esm_mod [rec_to 2] [imp 7 1 0] [(1, 7%nat)] [] false ].          (* m1: export {x} from m0 *)
 
+(* C: a named import from an ES module that has import statements but no export statement
+   (known finding C02-C: the linker treats the file as possibly CommonJS and only warns) *)
+Definition witness_exportless : graph :=
+  [ empty_module;
+    esm_mod [rec_to 2] [imp 1 3 0] [] [] true;                       (* e:  import {z} from m5 *)
+    mkMod [rec_to 3] [([0%nat], true)] [imp 1 2 0] [] [] EESM
+          false false false false false false 99 true [];            (* m5: import {w} from x  (no exports) *)
+    esm_mod [] [] [(2, 0%nat)] [] false ].                           (* x:  export var w *)
+
+(* every named import (not a namespace, not "default") targets a file with an export statement *)
+Definition named_targets_export (g : graph) : bool :=
+  forallb (fun m =>
+    forallb (fun ni =>
+      ni_is_star ni || (ni_alias ni =? 0) ||
+      match nth_error (m_records m) (ni_record ni) with
+      | Some r => match r_target r with Some t => m_export_kw (getm g t) | None => true end
+      | None => true
+      end) (m_imports m)) g.
+
 (* ---- bounded-exhaustive domain ---- *)
 (* per file and export name: nothing, a local binding, or an indirect export of a name of some file *)
 Inductive xopt := XNone | XLoc | XInd (t : nat) (name : Z).
